@@ -345,6 +345,8 @@ def classify(case, impl):
         "initIce mixed case" if case.get("initIce", "indirect") != case.get("initIce", "indirect").lower() else "initIce lower case",
         ("s_sigma_rel>=0.5" if case["k"].get("s_sigma_rel", 0) >= 0.5 else "s_sigma_rel>0") if case["k"].get("s_sigma_rel") else "s_sigma_rel=0",
         "holds" if case["opcond"].get("holds") else "no holds",
+        *(["seed_v falsy/bool (0, True)"] if (case.get("seed_v") == 0 or case.get("seed_v") is True) else []),
+        *(["seed falsy/bool (0, True)"] if (case.get("seed") == 0 or case.get("seed") is True) else []),
         "T0!=start" if case.get("T0") is not None else "T0=start",
         "partial yaml" if [k for k in cfg if k != "snowfall_parameters"] else "default constants",
     ]
@@ -423,6 +425,18 @@ def stability(case, ph=None):
     return case["dt"] * H / (ph["m"] * cpmin)
 
 
+def _seed(rng):
+    """seeds include the falsy / bool-like values 0, 1, True (a seed is a number, never a switch)"""
+    r = rng.random()
+    if r < 0.12:
+        return 0
+    if r < 0.18:
+        return 1
+    if r < 0.22:
+        return True
+    return rng.randint(0, 10**6)
+
+
 def _structured(rng, tier):
     arrangement = rng.choice(["square", "square", "hexagonal"])
     pallet = rng.random() < 0.3
@@ -467,8 +481,8 @@ def _structured(rng, tier):
         oc["cnTemp"] = holds[-1][0]
     elif rng.random() < 0.05:
         oc["cnTemp"] = rng.choice([-7, -12])
-    case = dict(kind="structured", N_vials=shape, k=k, dt=dt, seed=rng.randint(0, 10**6),
-                seed_v=rng.randint(0, 10**6), opcond=oc, T0=None, config=_config(rng, arrangement),
+    case = dict(kind="structured", N_vials=shape, k=k, dt=dt, seed=_seed(rng),
+                seed_v=_seed(rng), opcond=oc, T0=None, config=_config(rng, arrangement),
                 initIce=rng.choice(["indirect", "direct", "indirect", "direct", "Indirect", "DIRECT", "InDirect",
                                     "Direct", "INDIRECT", "dIrEcT"]),
                 threshold=rng.choice([0.9, 0.9, 0.5, 0.99, 0.75]))
@@ -566,7 +580,7 @@ def _tiny(rng, tier):
               rate=rng.choice([0.1, 0.05]), holds=[[hold, 1000.0 if dt == 1.0 else 1200.0]], cnTemp=hold)
     oc["t_tot"] = oc["holds"][0][1] + 200 * dt
     return dict(kind="tiny-supercooling", N_vials=n, k={"int": rng.choice([0, 20]), "ext": 0, "s0": 1000},
-                dt=dt, seed=rng.randint(0, 10**6), seed_v=rng.randint(0, 10**6), opcond=oc, T0=None, config=cfg,
+                dt=dt, seed=_seed(rng), seed_v=_seed(rng), opcond=oc, T0=None, config=cfg,
                 initIce=rng.choice(["indirect", "direct", "Direct"]), threshold=0.9, eps=eps)
 
 
@@ -596,15 +610,18 @@ def _late_cn(rng, tier):
     return dict(kind="late-cn", N_vials=[rng.randint(2, 4), rng.randint(2, 4), 1],
                 k={"int": rng.choice([5, 20]), "ext": rng.choice([5, 20]), "s0": rng.choice([300, 500]),
                    "s_sigma_rel": rng.choice([0, 0.1])},
-                dt=2.0, seed=rng.randint(0, 10**6), seed_v=rng.randint(0, 10**6),
+                dt=2.0, seed=_seed(rng), seed_v=_seed(rng),
                 opcond=dict(t_tot=900.0, start=5.0, stop=-40.0, rate=rng.choice([0.1, 0.08]),
                             holds=[[hold, rng.choice([150.0, 250.0])]], cnTemp=hold),
                 T0=None, config=None, initIce=rng.choice(["indirect", "direct"]), threshold=0.9)
 
 
 def cases(rng, tier):
-    for _ in range(4 if tier == "quick" else 40):
-        yield _late_cn(rng, tier)
+    for j in range(4 if tier == "quick" else 40):
+        c = _late_cn(rng, tier)
+        if j < 2:                      # vial seed 0 / run seed 0 with vial-to-vial variability
+            c["seed_v"], c["seed"] = (0, 5) if j == 0 else (7, 0)
+        yield c
     n, nh, nt = (44, 12, 6) if tier == "quick" else (1300, 150, 50)
     for _ in range(n):
         yield _structured(rng, tier)
